@@ -2,6 +2,7 @@ from __future__ import annotations
 
 import abc
 import socket
+import sys
 import typing
 from array import array
 from binascii import hexlify
@@ -360,7 +361,10 @@ class DefaultArray(Packer):
         """
         Pack a list of items by forwarding them to ``array``.
         """
-        return pack(self.length_format, len(data)) + array(self.real_format_str, data).tobytes()
+        a = array(self.real_format_str, data)
+        if sys.byteorder == "little":
+            a.byteswap()  # The wire format is big-endian
+        return pack(self.length_format, len(data)) + a.tobytes()
 
     def unpack(self, data: bytes, offset: int, unpack_list: list, *args: object) -> int:
         """
@@ -372,6 +376,8 @@ class DefaultArray(Packer):
             raise PackError(msg)
         a = array(self.real_format_str)
         a.frombytes(data[offset + self.length_size: offset + self.length_size + str_length])
+        if sys.byteorder == "little":
+            a.byteswap()  # The wire format is big-endian
         unpack_list.append([bool(b) for b in a] if self.format_str == "?" else list(a))
         return offset + self.length_size + str_length
 
@@ -453,9 +459,9 @@ class Serializer:
             "doublevarlenH": VarLen(">H"),
             "payload": NestedPayload(self),
             "payload-list": ListOf(NestedPayload(self)),
-            "arrayH-?": DefaultArray("?", "H"),
-            "arrayH-q": DefaultArray("q", "H"),
-            "arrayH-d": DefaultArray("d", "H"),
+            "arrayH-?": DefaultArray("?", ">H"),
+            "arrayH-q": DefaultArray("q", ">H"),
+            "arrayH-d": DefaultArray("d", ">H"),
         }
 
     def get_available_formats(self) -> list[str]:
